@@ -445,22 +445,28 @@ Fixpoint remove_all (c : cfg) (s : state) (i : nat) (es : list nat) : res :=
   | e :: r => bind (ns_remove c s i e) (fun s1 => remove_all c s1 i r)
   end.
 
-(* the add loop of __setitem__(slice) with its rollback *)
-Fixpoint add_all (c : cfg) (s : state) (i : nat) (es done : list nat) : res :=
+(* the add loop of __setitem__(slice) with its rollback: every accepted item is appended
+   provisionally to _order (so that the add hook of the following items sees it); on an exception
+   the provisional tail is dropped ([o0] = _order before the loop) and the accepted items are
+   removed again *)
+Fixpoint add_all (c : cfg) (s : state) (i : nat) (o0 : list nat) (es done : list nat) : res :=
   match es with
   | [] => (s, Ok)
   | e :: r =>
       match ns_add c s i e with
       | (s1, Err x) =>
-          match remove_all c s1 i (rev done) with
+          match remove_all c (set_order s1 i o0) i (rev done) with
           | (s2, Err y) => (s2, Err y)
           | (s2, _) => (s2, Err x)
           end
-      | (s1, _) => add_all c s1 i r (e :: done)
+      | (s1, _) =>
+          let s1' := match order_of s1 i with Some o => set_order s1 i (o ++ [e]) | None => s1 end in
+          add_all c s1' i o0 r (e :: done)
       end
   end.
 
-(* OrderedNamespaceSet.__setitem__(slice a:b) after the fix: the new items are materialised once *)
+(* OrderedNamespaceSet.__setitem__(slice a:b): the new items are materialised once; after the
+   loop the provisional tail is dropped and the slice is assigned *)
 Definition set_setslice (c : cfg) (s : state) (i : nat) (a b : option Z) (es : list nat) : res :=
   match order_of s i with
   | None => (s, Err ENoMethod)
@@ -469,7 +475,7 @@ Definition set_setslice (c : cfg) (s : state) (i : nat) (a b : option Z) (es : l
       let hi := slice_hi (List.length o) a b in
       let deleted := firstn (hi - lo) (skipn lo o) in
       let new := firstn (List.length deleted) es in
-      bind (add_all c s i new []) (fun s1 =>
+      bind (add_all c s i o new []) (fun s1 =>
       let s2 := set_order s1 i (firstn lo o ++ new ++ skipn hi o) in
       remove_all c s2 i deleted)
   end.
@@ -510,10 +516,58 @@ Fixpoint construct (c : cfg) (s : state) (o : nat) (ordered : bool) (hk : option
   | items :: r => bind (construct_one c s o ordered hk items) (fun s1 => construct c s1 o ordered hk r)
   end.
 
-(* SubmodelElementList.value setter: del self._value[:]; self._value.extend(value)
-   (append = insert(len(self), x) = add at the end) *)
+(* MutableSequence.append(x) = self.insert(len(self), x) *)
+Definition set_append (c : cfg) (s : state) (i e : nat) : res :=
+  match nth_error (sets s) i with
+  | None => (s, Err ENoMethod)
+  | Some st => set_insert c s i (Z.of_nat (List.length (s_backend st))) e
+  end.
+
+(* for v in reversed(added): self.remove(v) *)
+Fixpoint remove_each (c : cfg) (s : state) (i : nat) (es : list nat) : res :=
+  match es with
+  | [] => (s, Ok)
+  | e :: r => bind (set_remove c s i e) (fun s1 => remove_each c s1 i r)
+  end.
+
+(* OrderedNamespaceSet.extend (also +=): append one by one; if one item is refused the items
+   added by this call are removed again, last first, and the exception is re-raised
+   ([added] is kept in reverse order) *)
+Fixpoint extend_loop (c : cfg) (s : state) (i : nat) (es added : list nat) : res :=
+  match es with
+  | [] => (s, Ok)
+  | e :: r =>
+      match set_append c s i e with
+      | (s1, Err x) =>
+          match remove_each c s1 i added with
+          | (s2, Err y) => (s2, Err y)
+          | (s2, _) => (s2, Err x)
+          end
+      | (s1, _) => extend_loop c s1 i r (e :: added)
+      end
+  end.
+Definition set_extend (c : cfg) (s : state) (i : nat) (es : list nat) : res :=
+  match order_of s i with
+  | None => (s, Err ENoMethod)
+  | Some _ => extend_loop c s i es []
+  end.
+
+(* SubmodelElementList.value setter: new_items = list(value); old_items = list(self._value);
+   del self._value[:]; try: self._value.extend(new_items) except: self._value.extend(old_items); raise *)
 Definition set_value (c : cfg) (s : state) (i : nat) (es : list nat) : res :=
-  bind (set_delslice c s i None None) (fun s1 => add_each c s1 i es).
+  match order_of s i with
+  | None => (s, Err ENoMethod)
+  | Some old =>
+      bind (set_delslice c s i None None) (fun s1 =>
+      match set_extend c s1 i es with
+      | (s2, Err x) =>
+          match set_extend c s2 i old with
+          | (s3, Err y) => (s3, Err y)
+          | (s3, _) => (s3, Err x)
+          end
+      | r => r
+      end)
+  end.
 
 (* ---- identifying-attribute setters ------------------------------------- *)
 
@@ -647,6 +701,7 @@ Inductive op :=
 | DelSlice (r : nat * nat) (a b : option Z)
 | Construct (o : nat) (ordered : bool) (hk : option lcfg) (itemss : list (list nat))
 | SetValue (r : nat * nat) (es : list nat)
+| Extend (r : nat * nat) (es : list nat)
 | Rename (e : nat) (k : option string)
 | SetSem (e : nat) (m : option nat)
 | OwnerAdd (o e : nat)
@@ -667,6 +722,7 @@ Definition step (c : cfg) (s : state) (p : op) : res :=
   | DelSlice r a b => at_set s r (fun i => set_delslice c s i a b)
   | Construct o ordered hk itemss => construct c s o ordered hk itemss
   | SetValue r es => at_set s r (fun i => set_value c s i es)
+  | Extend r es => at_set s r (fun i => set_extend c s i es)
   | Rename e k => rename c s e (option_map KName k)
   | SetSem e m => set_semantic_id c s e m
   | OwnerAdd o e => owner_add c s o e
